@@ -31,7 +31,7 @@ func init() {
 		ID:     "C15",
 		Word32: true,
 		Level:  "model_checking",
-		Rule: "E2 explicit-state breadth-first search over real TailBitmap objects. Starts (all built with real calls): empty at offset 0/64/640/2^33; three words filled except H holes in forward, backward and interleaved fill order (offset 0 and 64); two starts that cross the real 1024-word reclaim threshold (1023 full words then holes; words 1..1025 full with the holes in word 0, so one Set compacts >1024 words), and five more in which a bit was set FAR AHEAD first (at word 2046, 2047, 2048, 2049, 4000), so that the tail surviving the compaction across the threshold is 1023, 1024, 1025, 1026 and ~3000 words long; and RUNS of k = 1..17, 31..33, 63..65, 127..129 completely set words (completed back to front) between a first word with two holes and a partial word behind the run. " +
+		Rule: "E2 explicit-state breadth-first search over real TailBitmap objects. Starts (all built with real calls): empty at offset 0/64/640/2^33; three words filled except H holes in forward, backward and interleaved fill order (offset 0 and 64); two starts that cross the real 1024-word reclaim threshold (1023 full words then holes; words 1..1025 full with the holes in word 0, so one Set compacts >1024 words), and five more in which a bit was set FAR AHEAD first (at word 2046, 2047, 2048, 2049, 4000), so that the tail surviving the compaction across the threshold is 1023, 1024, 1025, 1026 and ~3000 words long; two starts in which EXACTLY the 1024 words of the first buffer are full and nothing beyond was ever set (tail empty, buffer used up); and RUNS of k = 1..17, 31..33, 63..65, 127..129 completely set words (completed back to front) between a first word with two holes and a partial word behind the run. " +
 			"Alphabet per state: Set(every hole), Set below Offset (0, -1, Offset-1, Offset-5, Offset-63, Offset-64, Offset-65: negative indexes when the offset is 0), Set beyond the end (end+1, end+129, while the bitmap has grown < 130 bits), Set of an already-set bit, Compact. Successors are produced by cloning the object - into a buffer of exactly the capacity Words has in the real evolution, so that append and re-slicing continue as on the original - and calling the real method; the state key is every field the implementation can read (Offset, Words, all unexported fields through reflect) and the capacity of Words. " +
 			"After EVERY transition (before deduplication): Get/Get1 on the whole window [Offset-130, end) ∪ {0, o-1, -1, -64, -65} (negative positions included: they lie below the offset) against the model (when more than 1024 bits are stored: every bit within 66 of Offset, the end, every hole, every position ever set and the operation's index, plus the first and last bit of every stored word), Offset ≡ 0 mod 64 and monotone, no 0 bit skipped, first stored word ≠ all-ones after Set, highest index ever set < end, Compact changes no Get. Every discovered state is additionally re-reached by replaying its shortest path on a freshly built object (differential: cloned chain vs fresh replay), and every eighth state (and every state of depth ≤3) once more with a second, unrelated TailBitmap operated between the steps (objects must not share state). Non-trivial transitions: those that change the state.",
 		Assumptions: []string{
@@ -208,6 +208,16 @@ func c15Starts(thorough bool) []c15Start {
 		fill = append(fill, c15FillExcept(0, 0, 1023, nil, "forward")...)
 		fill = append(fill, c15FillExcept(0, 1023, 2, hs, "forward")...)
 		out = append(out, c15MkStart(fmt.Sprintf("threshold/far-bit-at-word-%d-then-1023-full-then-holes", farWord), 0, fill, holes))
+	}
+	// threshold D: EXACTLY the 1024 words of the first buffer filled front to back and nothing beyond them ever
+	// set: the tail is empty and the buffer is used up to its last slot (len 0, cap 0) when the next Set
+	// arrives - in the first word behind Offset, one word further on, or two
+	for _, o := range []int64{0, 64} {
+		var holes []int64
+		for _, r := range []int64{0, 1, 63, 64 + 5, 128 + 63} {
+			holes = append(holes, o+1024*64+r)
+		}
+		out = append(out, c15MkStart(fmt.Sprintf("threshold/exactly-1024-full-words-nothing-beyond@%d", o), o, c15FillExcept(o, 0, 1024, nil, "forward"), holes))
 	}
 	// RUNS of k completely set words between a first word with holes and a partial word behind them, for every
 	// k = 1..17 and around 32, 64, 128: the words of the run are completed BEFORE the first word (back to
